@@ -44,6 +44,7 @@ class Opts:
         self.p_param_res_clash = 0.12
         self.p_placeholder_clash = 0.3
         self.p_zero_size = 0.08
+        self.p_port_local_clash = 0.0
         self.size_thresholds = (0.3, 0.55, 0.65)   # unsized | fresh symbol | repeated symbol | (constant/compound when the incoming size is known)
         self.qubit_mode = False     # generate local_ancillae / positive sizes for the highwater property
         self.__dict__.update(kw)
@@ -336,6 +337,13 @@ def _assign_sizes(rng, node, opts, incoming_known, is_root):
             else:
                 p["size"] = None
                 known[p["name"]] = E.sym("#" + p["name"])
+            continue
+        if opts.p_port_local_clash and node["local_variables"] and rng.random() < opts.p_port_local_clash:
+            # a port whose declared size is the bare name of one of the routine's own local variables (the name is then defined
+            # twice; only checks that look at STRUCTURE switch this on — the value-level reading of such a routine is ambiguous)
+            lv = rng.choice([v for v, _ in node["local_variables"]])
+            p["size"] = E.sym(lv)
+            known[p["name"]] = None
             continue
         r = rng.random()
         fault = rng.random() < opts.p_fault_size
